@@ -46,11 +46,21 @@ type GenOpts struct {
 	ZonelessUnmanaged float64
 	// probability that a daemonset declares its resources as limits only (no requests stanza)
 	DaemonLimitsOnly float64
-	Existing   float64 // probability scale for existing nodes
-	Reserved   bool    // generate reserved offerings and enable the feature gate
-	Limits     float64 // probability that a pool has limits
-	MaxPods    int
-	Weights    bool // distinct pool weights
+	// probability that the LEADING instance types of the catalog are not offered in one zone that later instance types are
+	// offered in (per-instance-type zone sets differ inside every NodePool), most NodePools carry no zone requirement of their
+	// own, a set of at least three small replicas spreads over zones (DoNotSchedule) and another pod of the batch is pinned
+	// to that zone (a NodeClaim of the same pass there counts for the replicas' skew)
+	ZoneHoles float64
+	// probability that two NodePools carry taints that agree on key and effect but differ in VALUE (dedicated=x / dedicated=y,
+	// one of them possibly with a second taint), one confined to some zones and the other offered everywhere; a set of replicas
+	// tolerates only one of the two and spreads over zones with nodeTaintsPolicy=Honor, and another pod with the same
+	// tolerations is pinned to a zone both NodePools offer
+	TaintValues float64
+	Existing    float64 // probability scale for existing nodes
+	Reserved    bool    // generate reserved offerings and enable the feature gate
+	Limits      float64 // probability that a pool has limits
+	MaxPods     int
+	Weights     bool // distinct pool weights
 }
 
 var Zones = []string{"z1", "z2", "z3"}
@@ -506,6 +516,12 @@ func GenScenario(r *rand.Rand, o GenOpts) *Scenario {
 	if o.DefaultSpread > 0 && r.Float64() < o.DefaultSpread {
 		DecorateDefaultSpread(r, s)
 	}
+	if o.ZoneHoles > 0 && r.Float64() < o.ZoneHoles {
+		DecorateZoneHoles(r, s)
+	}
+	if o.TaintValues > 0 && r.Float64() < o.TaintValues {
+		DecorateTaintValues(r, s)
+	}
 	if o.ListFaults > 0 && r.Float64() < o.ListFaults {
 		DecorateListFault(r, s)
 	}
@@ -527,6 +543,203 @@ func GenScenario(r *rand.Rand, o GenOpts) *Scenario {
 		}
 	}
 	return s
+}
+
+const zoneKey = "topology.kubernetes.io/zone"
+
+// ensureSpreadSet makes the first pending pod's app a set of at least three small pending replicas with a DoNotSchedule zone
+// spread (maxSkew 1 or 2) selecting the app; mostly the replicas carry no node constraints of their own.  Returns the app.
+func ensureSpreadSet(r *rand.Rand, s *Scenario, tolerations []Toleration, honorTaints bool) string {
+	app := s.Pods[0].Labels["app"]
+	p0 := &s.Pods[0]
+	var sp *Spread
+	for i := range p0.Spreads {
+		if p0.Spreads[i].TopologyKey == zoneKey && p0.Spreads[i].DoNotSchedule && len(p0.Spreads[i].MatchLabels) == 1 && p0.Spreads[i].MatchLabels["app"] == app {
+			sp = &p0.Spreads[i]
+		}
+	}
+	if sp == nil {
+		p0.Spreads = []Spread{{TopologyKey: zoneKey, MaxSkew: 1, DoNotSchedule: true, MatchLabels: map[string]string{"app": app}}}
+		if r.Float64() < 0.2 {
+			p0.Spreads[0].MaxSkew = 2
+		}
+		sp = &p0.Spreads[0]
+	}
+	if honorTaints {
+		t := true
+		sp.NodeTaintsHonor = &t
+	}
+	if r.Float64() < 0.75 {
+		p0.NodeSelector, p0.Required, p0.Preferred, p0.Affinity = nil, nil, nil, nil
+	}
+	p0.HostPorts, p0.Volumes = nil, nil
+	p0.CPU, p0.Mem = int64(100*(1+r.IntN(4))), int64(64*(1+r.IntN(4)))
+	if tolerations != nil {
+		p0.Tolerations = append([]Toleration(nil), tolerations...)
+	}
+	template := ClonePod(*p0)
+	pending := 0
+	for i := range s.Pods {
+		if s.Pods[i].Labels["app"] == app {
+			pending++
+			if i > 0 && len(s.Pods[i].Name) > 4 && s.Pods[i].Name[:4] == "rep-" {
+				c := ClonePod(template)
+				c.Name = s.Pods[i].Name
+				s.Pods[i] = c
+			}
+		}
+	}
+	for i := 0; pending < 3+r.IntN(3); i++ {
+		c := ClonePod(template)
+		c.Name = fmt.Sprintf("spr-%d", i)
+		s.Pods = append(s.Pods, c)
+		pending++
+	}
+	return app
+}
+
+// addPinned adds one or two small pending pods of ANOTHER app that are pinned to the zone by a node selector.
+func addPinned(r *rand.Rand, s *Scenario, app, zone string, tolerations []Toleration) {
+	var others []string
+	for _, a := range apps {
+		if a != app {
+			others = append(others, a)
+		}
+	}
+	n := 1 + r.IntN(2)
+	for i := 0; i < n; i++ {
+		s.Pods = append(s.Pods, Pod{Name: fmt.Sprintf("pin-%d", i), Labels: map[string]string{"app": pick(r, others)}, CPU: int64(100 * (1 + r.IntN(3))), Mem: 64,
+			NodeSelector: map[string]string{zoneKey: zone}, Tolerations: append([]Toleration(nil), tolerations...)})
+	}
+	// the order in which the batch is listed varies
+	if r.Float64() < 0.5 {
+		last := len(s.Pods) - 1
+		s.Pods[0], s.Pods[last] = s.Pods[last], s.Pods[0]
+	}
+}
+
+// DecorateZoneHoles: see GenOpts.ZoneHoles.
+func DecorateZoneHoles(r *rand.Rand, s *Scenario) {
+	if len(s.Pods) == 0 || len(s.ITs) < 2 {
+		return
+	}
+	unshare(s)
+	hole := pick(r, Zones)
+	k := 1 + r.IntN(len(s.ITs)-1) // the first k instance types lack the zone, at least the last one keeps it
+	for i := 0; i < k; i++ {
+		var keep []Offering
+		for _, of := range s.ITs[i].Offerings {
+			if of.Zone != hole {
+				keep = append(keep, of)
+			}
+		}
+		if len(keep) == 0 {
+			z := Zones[0]
+			if z == hole {
+				z = Zones[1]
+			}
+			keep = []Offering{{Zone: z, CapacityType: "on-demand", Price: s.ITs[i].CPU / 1000 * 40, Available: true}}
+		}
+		s.ITs[i].Offerings = keep
+	}
+	// some later instance type is certainly available there
+	j := k + r.IntN(len(s.ITs)-k)
+	avail := false
+	for _, of := range s.ITs[j].Offerings {
+		avail = avail || (of.Zone == hole && of.Available)
+	}
+	if !avail {
+		s.ITs[j].Offerings = append(s.ITs[j].Offerings, Offering{Zone: hole, CapacityType: pick(r, capTypes), Price: s.ITs[j].CPU / 1000 * 40, Available: true})
+	}
+	// existing nodes keep an offering of their instance type
+	for i := range s.Nodes {
+		n := &s.Nodes[i]
+		for _, it := range s.ITs {
+			if it.Name != n.IT {
+				continue
+			}
+			ok := false
+			for _, of := range it.Offerings {
+				ok = ok || (of.Zone == n.Zone && of.CapacityType == n.CapacityType)
+			}
+			if !ok {
+				n.Zone, n.CapacityType = it.Offerings[0].Zone, it.Offerings[0].CapacityType
+			}
+		}
+	}
+	if r.Float64() < 0.7 {
+		for i := range s.Pools {
+			var reqs []MinExpr
+			for _, e := range s.Pools[i].Reqs {
+				if e.Key != zoneKey {
+					reqs = append(reqs, e)
+				}
+			}
+			s.Pools[i].Reqs = reqs
+		}
+	}
+	app := ensureSpreadSet(r, s, nil, false)
+	addPinned(r, s, app, hole, []Toleration{{Operator: "Exists"}})
+}
+
+// DecorateTaintValues: see GenOpts.TaintValues.
+func DecorateTaintValues(r *rand.Rand, s *Scenario) {
+	if len(s.Pods) == 0 {
+		return
+	}
+	unshare(s)
+	if len(s.Pools) < 2 {
+		s.Pools = append(s.Pools, NodePool{Name: "pool-tv", Labels: map[string]string{}})
+	}
+	a, b := 0, 1
+	if r.Float64() < 0.5 {
+		a, b = 1, 0
+	}
+	eff := pick(r, []string{"NoSchedule", "NoSchedule", "NoExecute"})
+	va, vb := "x", "y"
+	if r.Float64() < 0.5 {
+		va, vb = "y", "x"
+	}
+	s.Pools[a].Taints = []Taint{{Key: "dedicated", Value: va, Effect: eff}}
+	s.Pools[b].Taints = []Taint{{Key: "dedicated", Value: vb, Effect: eff}}
+	tol := []Toleration{{Key: "dedicated", Operator: "Equal", Value: vb, Effect: eff}}
+	if r.Float64() < 0.5 {
+		s.Pools[b].Taints = append(s.Pools[b].Taints, Taint{Key: "other", Value: "", Effect: "NoSchedule"})
+		tol = append(tol, Toleration{Key: "other", Operator: "Exists", Effect: "NoSchedule"})
+	}
+	// pool a is confined to one or two zones, pool b is offered everywhere
+	strip := func(reqs []MinExpr) []MinExpr {
+		var out []MinExpr
+		for _, e := range reqs {
+			if e.Key != zoneKey {
+				out = append(out, e)
+			}
+		}
+		return out
+	}
+	perm := r.Perm(len(Zones))
+	shared := []string{Zones[perm[0]]}
+	if r.Float64() < 0.5 {
+		shared = append(shared, Zones[perm[1]])
+	}
+	s.Pools[a].Reqs = append(strip(s.Pools[a].Reqs), MinExpr{Key: zoneKey, Op: "In", Values: shared})
+	s.Pools[b].Reqs = strip(s.Pools[b].Reqs)
+	s.Pools[a].StartupTaints, s.Pools[b].StartupTaints = nil, nil
+	// nodeTaintsPolicy=Honor verdicts are time-dependent while a Node still carries startup / unregistered taints
+	for i := range s.Nodes {
+		if s.Nodes[i].Stage == "node" || s.Nodes[i].Stage == "registered" {
+			s.Nodes[i].Stage = "initialized"
+		}
+		var keep []Taint
+		for _, t := range s.Nodes[i].Taints {
+			if t.Key != "node.kubernetes.io/not-ready" {
+				keep = append(keep, t)
+			}
+		}
+		s.Nodes[i].Taints = keep
+	}
+	app := ensureSpreadSet(r, s, tol, true)
+	addPinned(r, s, app, pick(r, shared), tol)
 }
 
 // DecorateGetFault makes one Get of a volume object fail once during the pass (503): the Nth PersistentVolumeClaim lookup
